@@ -152,4 +152,12 @@ META = {
           "Q3 among associations with work of the same class the least recently served goes first; Q4 a link status request is sent only after keep-alive silence from that outstation and not while one of its polls is due; Q5 never two requests outstanding; Q6 the write instant equals max(channel became free, earliest eligibility of anything pending) exactly - no starvation, no early wake-up - and the number of scheduler passes is bounded by the number of events."),
     note="Automatic start-up tasks are disabled here (C17 covers them); channel enable/disable toggles are not yet driven.",
  ),
+ "C18": dict(
+    engine="vh",
+    design_ref="5.18",
+    technique="runtime monitor over a paired simulation (real master task + real outstation task + harness relay with scripted per-direction delays under a virtual clock); arithmetic oracle on the value passed to write_absolute_time; scripted-peer fault scripts for the failure clauses",
+    text=("Part A: for generated (procedure, forward delay, backward delay, processing delay, master clock, noise) the real master synchronises the real outstation through a delaying relay; when synchronize_time returns Ok there is exactly one write_absolute_time call and |master clock at that instant - value| <= f (LAN) or <= |f-b| (non-LAN, 0 when equal); it must return Err when the master has no time, the reported processing delay exceeds the round trip, NEED_TIME stays set, the application rejects the write or the value would exceed 48 bits. "
+          "Part B: a scripted outstation attacks each step (excess delay, five kinds of unexpected objects, NEED_TIME, IIN2 errors, overflow at the 48-bit limit): Err and no WRITE after a bad first step. Part C: the real outstation adds exactly the elapsed virtual time to g50v3, rejects g50v3 without a preceding RECORD_CURRENT_TIME or on 48-bit overflow, passes g50v1 unchanged and reports the application's processing delay."),
+    note="Per-frame jitter is not modelled (the bounds in the property are stated for fixed one-way delays); a failed synchronisation that still changed the clock is outside the property.",
+ ),
 }
